@@ -400,6 +400,24 @@ def _big_problem(rnd):
     return p
 
 
+def _small_problem(rnd):
+    """2-4 streams with wide ranges: few table rows, so the hand-over between the hot-water loop and the steam level
+    usually lies strictly inside a table interval (what seeded change C12e needs); every cut position is tried"""
+    n = rnd.randint(2, 4)
+    nz = rnd.randint(1, 2)
+    S = []
+    for i in range(n):
+        kind = "C" if i == 0 else rnd.choice("HC")
+        a = rnd.randrange(0, 8)
+        b = a + rnd.randrange(3, 14)
+        S.append(dict(k=kind, lo=100 * a, hi=100 * b, cp=rnd.randint(1, 4), dtc=rnd.choice([0, 50, 100]), z=rnd.randint(1, nz)))
+    top = max(s["hi"] for s in S)
+    a = rnd.randrange(2, 12) * 100
+    lad = [dict(name="STM", type="Hot", ts=top + 300, tt=top + 300), dict(name="HWL", type="Hot", ts=a + rnd.choice([300, 500, 700]), tt=a),
+           dict(name="CWG", type="Cold", ts=-300, tt=-100)]
+    return dict(S=S, ladder=lad)
+
+
 def _drive_big(args):
     idx, p = args
     from . import trace_pipeline as tp
@@ -407,9 +425,12 @@ def _drive_big(args):
     wide = [i for i, s in enumerate(p["S"]) if s["hi"] - s["lo"] >= 200]
     if not wide:
         return dict(idx=idx, skipped=True)
-    i = wide[idx % len(wide)]
-    w = (p["S"][i]["hi"] - p["S"][i]["lo"]) // 100
-    cut = p["S"][i]["lo"] + 30 + 100 * ((idx // 3) % w)          # anywhere along the stream, never on the 50-unit lattice
+    if "cut" in p:
+        i, cut = p["cut"]
+    else:
+        i = wide[idx % len(wide)]
+        w = (p["S"][i]["hi"] - p["S"][i]["lo"]) // 100
+        cut = p["S"][i]["lo"] + 30 + 100 * ((idx // 3) % w)          # anywhere along the stream, never on the 50-unit lattice
     S2 = p["S"][:i] + [dict(p["S"][i], hi=cut), dict(p["S"][i], lo=cut)] + p["S"][i + 1:]
     try:
         ob = _OP["service"](tp.request(p), project_name="Site")
@@ -452,6 +473,12 @@ def big_split_leg(run, tier):
     run.register_matcher("kf_glide_rows", kf_glide_rows)
     rnd = random.Random(120 + seed())
     probs = [_big_problem(rnd) for _ in range(100 if tier == "quick" else 2500)]
+    for _ in range(int(os.environ.get("VERIF_SMALL_SPLIT", 60 if tier == "quick" else 600))):
+        q = _small_problem(rnd)
+        for i, st in enumerate(q["S"]):
+            for k in range((st["hi"] - st["lo"]) // 100):
+                if rnd.random() < 0.5:
+                    probs.append(dict(q, cut=[i, st["lo"] + 30 + 100 * k]))
     with Pool(16, initializer=_init) as pool:
         res = pool.map(_drive_big, list(enumerate(probs)), chunksize=4)
     n = 0
